@@ -165,6 +165,8 @@ type thrAcc struct {
 	write    bool
 	maxSpawn int    // largest number of children the thread had spawned at an access
 	spawned  uint64 // union over the accesses of the children already spawned at the access
+	spawnedW uint64 // the same over the writes only
+	maxSpawnW int
 	overflow bool   // a child with id >= 64 was spawned before an access
 }
 
@@ -961,6 +963,12 @@ func (m *M) record(p *path, a Addr, write, plain bool, instr ssa.Instruction) {
 		ta.maxSpawn = p.cfg.NSpawn
 	}
 	ta.spawned |= p.cfg.SpawnMask
+	if write {
+		ta.spawnedW |= p.cfg.SpawnMask
+		if p.cfg.NSpawn > ta.maxSpawnW {
+			ta.maxSpawnW = p.cfg.NSpawn
+		}
+	}
 	ai.write = ai.write || write
 	ai.plain = ai.plain || plain
 	if instr != nil {
@@ -1033,10 +1041,9 @@ func (m *M) SharedUpdate() bool {
 	return grew
 }
 
-// spawnOrdered: are all accesses of thread a ordered before everything thread b does, because b
-// descends from a child that a spawned after its last access?
-func (m *M) spawnOrdered(a, b int, ta *thrAcc) bool {
-	// walk up from b to the child of a on the path
+// spawnOrdered: are the accesses of thread a (all of them, or only its writes) ordered before
+// everything thread b does, because b descends from a child that a spawned afterwards?
+func (m *M) spawnOrdered(a, b int, ta *thrAcc, writesOnly bool) bool {
 	x := b
 	for depth := 0; depth < 64; depth++ {
 		par := m.threads[x].Parent
@@ -1045,7 +1052,13 @@ func (m *M) spawnOrdered(a, b int, ta *thrAcc) bool {
 		}
 		if par == a {
 			if x >= 64 {
+				if writesOnly {
+					return ta.maxSpawnW == 0
+				}
 				return ta.maxSpawn == 0
+			}
+			if writesOnly {
+				return ta.spawnedW&(1<<uint(x)) == 0
 			}
 			return ta.spawned&(1<<uint(x)) == 0
 		}
@@ -1061,10 +1074,14 @@ func (m *M) concurrent(ai *accInfo) bool {
 			if a >= b || !(ta.write || tb.write) {
 				continue
 			}
-			if m.spawnOrdered(a, b, ta) || m.spawnOrdered(b, a, tb) {
-				continue
+			// writes of a against any access of b
+			if ta.write && !(m.spawnOrdered(a, b, ta, true) || m.spawnOrdered(b, a, tb, false)) {
+				return true
 			}
-			return true
+			// any access of a against writes of b
+			if tb.write && !(m.spawnOrdered(a, b, ta, false) || m.spawnOrdered(b, a, tb, true)) {
+				return true
+			}
 		}
 	}
 	return false
